@@ -38,6 +38,9 @@ class BMSToOsu(ConvertBase):
         osu.title = unidecode(bms.title.decode("sjis"))
         osu.version = unidecode(bms.version.decode("sjis"))
         osu.artist = unidecode(bms.artist.decode("sjis"))
-        osu.circle_size = bms.stack().column.max() + 1
+        # A chart without notes has no highest column (NaN): the default key count is kept
+        keys = bms.stack().column.max() + 1
+        if keys == keys:
+            osu.circle_size = keys
 
         return osu
